@@ -105,6 +105,29 @@ def gen_cases(tier, seed):
     for name, meth in [("H2", "AM1"), ("LiH", "MNDO"), ("HF", "AM1")] + ([("H2", "PM3"), ("HCl", "AM1"), ("BeH2", "MNDO")] if tier == "thorough" else []):
         cases.append({"kind": "ksa-small", "mols": [_mk_mol(g, name, 1.0)], "pad": 0, "method": meth, "conv": [3, dict(KSA)],
                       "sp2": None, "eps": 1e-8, "start": "default", "cap": None, "uhf": False, "backward": 0})
+    # far-stretched polar diatomics: diagonal density elements reach the occupation cap inside adaptive_mix
+    # (electron-losing renormalisation, repaired in 77e3544); [0,alpha] and Pulay at the same geometries as controls
+    if tier == "quick":
+        grid = [("HF", "PM3", 12.0, [1]), ("HF", "AM1", 5.0, [1]), ("HF", "MNDO", 26.0, [1]), ("HCl", "AM1", 10.0, [1]),
+                ("HCl", "PM3", 4.0, [1]), ("LiF", "MNDO", 6.0, [1]), ("LiH", "MNDO", 5.0, [1]), ("NaCl", "MNDO", 8.0, [1]),
+                ("HF", "PM3", 12.0, [0, 0.3]), ("HF", "PM3", 12.0, [2]), ("HCl", "AM1", 10.0, [0, 0.5]), ("HCl", "AM1", 10.0, [2])]
+        grid = [(n, me, d, cv, False) for n, me, d, cv in grid] + [("HF", "AM1", 12.0, [1], True)]
+    else:
+        grid = []
+        for n, ms in [("HF", ["PM3", "AM1", "MNDO"]), ("HCl", ["PM3", "AM1", "MNDO"]), ("LiF", ["MNDO", "PM3"]),
+                      ("LiH", ["MNDO", "PM3"]), ("NaCl", ["MNDO"]), ("NaH", ["MNDO"])]:
+            for me in ms:
+                for d in [3.0, 5.0, 8.0, 12.0, 18.0, 26.0]:
+                    for cv in [[1], [1], [0, 0.3], [2]]:
+                        grid.append((n, me, d, cv, False))
+                grid.append((n, me, 12.0, [1], True))
+    for n, me, d, cv, u in grid:
+        Zd, Xd0, _, _ = gen.molecule(n)
+        d0 = float(np.linalg.norm(np.asarray(Xd0[1]) - np.asarray(Xd0[0])))
+        mm = _mk_mol(g, n, d / d0)
+        mm["sigma"] = 0.0
+        cases.append({"kind": "stretched-diatomic", "mols": [mm], "pad": 0, "method": me, "conv": cv, "sp2": None,
+                      "eps": float(_pick(g, [1e-6, 1e-8, 1e-8, 1e-10])), "start": "default", "cap": None, "uhf": u, "backward": 0})
     # scf_backward=1: reaches the implicit-adjoint fixed-point loops from the same public call
     for name in (["H2O", "CH2O"] if tier == "quick" else ["H2O", "CH2O", "NH3", "HCN", "CH3OH", "C2H4"]):
         cases.append({"kind": "backward", "mols": [_mk_mol(g, name, 1.0)], "pad": 0, "method": "AM1",
@@ -132,10 +155,6 @@ def gen_cases(tier, seed):
             mols = [_mk_mol(g, nm), _mk_mol(g, nm)]
         else:
             mols = [_mk_mol(g, _pick(g, pool)) for _ in range(int(g.integers(2, 4)))]
-            if sp2 is not None:
-                # the anion-in-padded-batch SP2 mechanism has its own cases above; here anions stay out of
-                # *padded SP2* batches so that one known mechanism cannot eat the budget of the lattice
-                mols = [m for m in mols if gen.molecule(m["name"])[2] >= 0] or [_mk_mol(g, "H2O")]
         pad = int(g.integers(0, 3)) if layout != "homo" or g.random() < 0.3 else 0
         cases.append({"kind": "lattice", "mols": mols, "pad": pad, "method": method, "conv": conv, "sp2": sp2,
                       "eps": eps, "start": start, "cap": cap, "uhf": bool(uhf), "backward": 0})
@@ -435,8 +454,11 @@ def run_case(case):
                   ("idempotency", r["idempotency"], 1e-12 + K_IDEM * eps_eff * A),
                   ("commutator", r["commutator"], 1e-10 + K_COMM * eps_eff * A * su),
                   ("energy", r["energy"], TOL_E + 1e-13 * abs(r["E_functional"]))]
+        # first-order response of the aufbau density to the Fock change of one admissible step is dF_ov / gap:
+        # the constant holds for gaps >= 1 eV and scales with 1/gap below
         if r["gap"] is not None and r["gap"] > GAP_MIN:
-            checks.append(("reproduction", r["reproduction"], 1e-10 + K_REPRO * eps_eff * A * su))
+            gf = max(1.0, 1.0 / r["gap"])
+            checks.append(("reproduction", r["reproduction"], 1e-10 + K_REPRO * eps_eff * A * su * gf))
         else:
             mon["repro_ineligible_small_gap"] += 1
         # second rebuild: reference model R1 (independent implementation of the published NDDO equations)
@@ -451,15 +473,21 @@ def run_case(case):
             allow = 4.0 * r1["nbas"] * scfmon.R1_DF      # |[dF,P]| <= 2 n |dF|max |P|max
             checks.append(("commutator_R1", r1["commutator"], allow + K_COMM * eps_eff * A * su))
             if r1["gap"] is not None and r1["gap"] > 0.5:
-                checks.append(("reproduction_R1", r1["reproduction"], allow / r1["gap"] + 1e-10 + K_REPRO * eps_eff * A * su))
+                checks.append(("reproduction_R1", r1["reproduction"],
+                               allow / r1["gap"] + 1e-10 + K_REPRO * eps_eff * A * su * max(1.0, 1.0 / r1["gap"])))
             obs["max_F_repo_minus_F_R1"] = max(obs.get("max_F_repo_minus_F_R1", 0.0), r1["dF"])   # C06's business; recorded only
         for name, val, tol in checks:
             if upd(name + ("/" + tag + ("/uhf" if uhf else "") if name in ("idempotency", "commutator", "reproduction") else ""), val, tol):
                 bad.append((name, float(val), float(tol)))
         rr = {k: (float(v) if isinstance(v, (int, float)) and v is not None else v) for k, v in r.items()}
         resid_rows.append(rr)
+        # adaptive mixing ended on a density that lost an even number (>= 2) of electrons (DESIGN-era defect of the
+        # adaptive_mix renormalisation): every clause this row breaks carries that mechanism
+        dtr = float(r["trace"])
+        lost = int(round(dtr))
+        loses_electrons = bool(conv[0] == 1 and lost >= 2 and lost % 2 == 0 and abs(dtr - lost) < 1e-3)
         for name, val, tol in bad:
-            mech = None
+            mech = "adaptive-mix-loses-electrons" if loses_electrons else None
             if conv[0] == 3 and name in ("idempotency", "commutator", "reproduction", "commutator_R1", "reproduction_R1"):
                 # KSA met its own (energy-only) rule, yet the density residual of its last iteration is above
                 # the element-wise density criterion every other solver must meet
